@@ -318,7 +318,12 @@ def initialize_lua(ctx: "Wtp") -> None:
     def filter_attribute_access(
         obj: Any, attr_name: str, is_setting: bool
     ) -> str:
-        if isinstance(attr_name, str) and not attr_name.startswith("_"):
+        if (
+            isinstance(attr_name, str)
+            and not attr_name.startswith("_")
+            # partial(fn, ctx).args would hand the context to Lua
+            and not isinstance(obj, partial)
+        ):
             return attr_name
         raise AttributeError("access denied")
 
